@@ -607,3 +607,26 @@ package core
 //@   requires @owned forall a string, b string :: a != b && has(self.fileArgs, a) && has(self.fileArgs, b) ==> self.fileArgs[a] != self.fileArgs[b]
 //@   requires @nonnil forall a string :: has(self.fileArgs, a) ==> self.fileArgs[a] != nil
 //@   loop 1 invariant forall j :: 0 <= j && j < len(doneNodes) ==> !isnil(doneNodes[j])
+
+// ---------------------------------------------------------------- C03 disabled calls never run: every disabling condition is consulted
+// Ghost event: dresolved[fork] counts the disable bindings Fork.disabled has resolved.
+// A fork is reported "not disabled" only after every disable binding of its call has been
+// resolved (one that resolves to false, or is not ready, must not end the evaluation).
+//@ func core.TopNode.resolve property C03
+//@   trusted
+//@   modifies ghost(dresolved)
+//@   ensures ghost(dresolved)[0] == old(ghost(dresolved)[0]) + 1
+
+//@ func core.Runtime.FreeMemBytes property C03
+//@   trusted
+//@   pure
+
+//@ iface syntax.CallGraphNode.Disabled property C03
+//@   pure
+//@   opt deterministic on
+
+//@ func core.Fork.disabled property C03
+//@   requires self != nil && self.node != nil && self.node.top != nil && self.node.top.rt != nil && self.node.top.types != nil
+//@   ensures @allconsulted !result.0 ==> ghost(dresolved)[0] == old(ghost(dresolved)[0]) + len(fn(syntax.CallGraphNode.Disabled, self.node.call))
+//@   loop 1 invariant ghost(dresolved)[0] == old(ghost(dresolved)[0])
+//@   loop 2 invariant 0 <= iter && iter <= len(fn(syntax.CallGraphNode.Disabled, self.node.call)) && ghost(dresolved)[0] == old(ghost(dresolved)[0]) + iter
